@@ -545,6 +545,22 @@ def execute(world, op, dry=False):
     elif name == "finalize":
         d = g(op[1])
         tags = []
+        # links whose target lies in the linking Section's own branch are outside every quantifier (C12
+        # excludes them; resolving one copies the Section into itself without end)
+        stack = list(raw_children(d)[0]) if kind(d) == "doc" else []
+        n = 0
+        while stack and n < 500:
+            s_ = stack.pop()
+            n += 1
+            stack.extend(raw_children(s_)[0])
+            link = s_.__dict__.get("_link")
+            if link is not None:
+                ok, t, _ = budget.run(lambda: _resolve(s_, link), 20000)
+                if ok and kind(t) == "sec" and (t is s_ or is_ancestor(t, s_) or is_ancestor(s_, t)):
+                    tags.append("link-into-own-branch")
+                elif not ok or t is None:
+                    tags.append("link-unresolvable")
+        tags = sorted(set(tags))
         fn = lambda: d.finalize()
     elif name == "clean":
         d = g(op[1])
@@ -643,6 +659,15 @@ def execute(world, op, dry=False):
         world.objs.append(res["ret"] if res["raised"] is None and kind(res["ret"]) else None)
         res["new"] = len(world.objs) - 1
     return res
+
+
+def _resolve(sec, link):
+    try:
+        return sec.get_section_by_path(link)
+    except budget.BudgetExceeded:
+        raise
+    except Exception:
+        return None
 
 
 def _call(fn):
